@@ -79,6 +79,29 @@ func hostileCounts(remaining int) [][]byte {
 	return out
 }
 
+// hasRagged: some LIST/MAP with at least two elements has a FIRST element (first value, for a map) that is itself a
+// LIST/MAP with at least two elements and a different count
+func hasRagged(l []span) bool {
+	cnt := func(s span) int {
+		if s.Ty == 8 {
+			return len(s.Kids) / 2
+		}
+		return len(s.Kids)
+	}
+	for _, s := range allSpans(l) {
+		if (s.Ty == 9 || s.Ty == 8) && cnt(s) >= 2 {
+			k := s.Kids[0]
+			if s.Ty == 8 {
+				k = s.Kids[1]
+			}
+			if (k.Ty == 9 || k.Ty == 8) && cnt(k) >= 2 && cnt(k) != cnt(s) {
+				return true
+			}
+		}
+	}
+	return false
+}
+
 func c05Gen(tier string, rng *rand.Rand) []mCase {
 	initRegistry()
 	per, maxLen, nrand := 2, 400, 150
@@ -96,6 +119,20 @@ func c05Gen(tier string, rng *rand.Rand) []mCase {
 	var bases []base
 	for _, b := range mkBases(rng, per, maxLen) {
 		bases = append(bases, b)
+	}
+	// extra bases with directly nested containers of differing sizes (an outer list/map with >= 2 elements one of which is a
+	// list/map with another count), so that the near-count mutations below meet inner counts that differ from outer ones
+	for sid, e := range registry {
+		kept := 0
+		for i := 0; i < 80 && kept < 2; i++ {
+			v := gRandomValue(rng, e)
+			if bs, err := gEncode(v); err == nil && len(bs) <= 4*maxLen {
+				if sp, ok := walkTop(bs); ok && hasRagged(sp) {
+					bases = append(bases, base{e, sid, v, bs, sp})
+					kept++
+				}
+			}
+		}
 	}
 	// extra bases for the two packet types every process decodes from the network
 	for sid, e := range registry {
@@ -137,6 +174,24 @@ func c05Gen(tier string, rng *rand.Rand) []mCase {
 				for _, k := range rng.Perm(len(hc))[:7] {
 					nb := append(append(append([]byte(nil), b.bytes[:cf.Start]...), hc[k]...), b.bytes[cf.End:]...)
 					cs = append(cs, mkS(b, "hostile-count", fmt.Sprintf("count of wire type %d at %d := % x", s.Ty, cf.Start, hc[k]), nb))
+				}
+				// counts that disagree with the elements actually present by a little: understated (further element heads
+				// follow the announced ones - with nested containers the inner counts then differ from the outer one) and
+				// overstated by one; always, not sampled
+				if s.Ty == 9 || s.Ty == 8 {
+					n := len(s.Kids)
+					if s.Ty == 8 {
+						n /= 2
+					}
+					seen := map[int]bool{n: true}
+					for _, k := range []int{n - 1, 1, n / 2, n + 1} {
+						if k < 0 || seen[k] {
+							continue
+						}
+						seen[k] = true
+						nb := append(append(append([]byte(nil), b.bytes[:cf.Start]...), mkCount(k)...), b.bytes[cf.End:]...)
+						cs = append(cs, mkS(b, "near-count", fmt.Sprintf("count of wire type %d at %d := %d (elements present: %d)", s.Ty, cf.Start, k, n), nb))
+					}
 				}
 			}
 			if s.LenAt >= 0 && s.LenSize == 4 {
